@@ -7,6 +7,7 @@ package main
 import (
 	"bytes"
 	"fmt"
+	"regexp"
 	"go/ast"
 	"go/constant"
 	"go/printer"
@@ -72,8 +73,11 @@ type Exec struct {
 	callOrd map[string]int
 	callIdxOf map[ssa.Instruction]int // ordinal of call per callee name in source order
 	preLoops map[*ssa.BasicBlock]*loopInfo
+	propRe *regexp.Regexp
+	subErrSites []string
 	tiDone map[string]bool
 	tiRelevant map[int]bool
+	privAllocs map[*ssa.Alloc]bool
 	roCells map[*ssa.Alloc]ssa.Value
 	roStored map[*ssa.Alloc]bool
 	frameActive bool
@@ -532,6 +536,8 @@ func (ex *Exec) panicOblig(kind string, pos token.Pos, want func(ast.Node) bool,
 	ex.vc.assume(fmt.Sprintf("(=> %s %s)", ex.cur.guard, cond))
 }
 
+func hasPropStr(a, b string) bool { return a == b }
+
 func isIndexExpr(n ast.Node) bool { _, ok := n.(*ast.IndexExpr); return ok }
 func isSliceExpr(n ast.Node) bool { _, ok := n.(*ast.SliceExpr); return ok }
 func isAssertExpr(n ast.Node) bool {
@@ -632,7 +638,66 @@ func (ex *Exec) computeROCells() {
 	}
 }
 
-func (ex *Exec) load(addr ssa.Value) string {
+// computePrivAllocs: allocs whose address is only ever used to access them
+// (field/element addressing, loads, stores into them) are private storage.
+func (ex *Exec) computePrivAllocs() {
+	ex.privAllocs = map[*ssa.Alloc]bool{}
+	var onlyAccess func(v ssa.Value, depth int) bool
+	onlyAccess = func(v ssa.Value, depth int) bool {
+		refs := v.Referrers()
+		if refs == nil || depth > 4 {
+			return false
+		}
+		for _, r := range *refs {
+			switch x := r.(type) {
+			case *ssa.DebugRef:
+			case *ssa.Store:
+				if x.Addr != v {
+					return false
+				}
+			case *ssa.UnOp:
+				if x.Op != token.MUL {
+					return false
+				}
+			case *ssa.FieldAddr:
+				if x.X != v || !onlyAccess(x, depth+1) {
+					return false
+				}
+			default:
+				return false
+			}
+		}
+		return true
+	}
+	for _, b := range ex.fn.Blocks {
+		for _, in := range b.Instrs {
+			if a, ok := in.(*ssa.Alloc); ok {
+				if _, isArr := a.Type().(*types.Pointer).Elem().Underlying().(*types.Array); isArr {
+					continue
+				}
+				if onlyAccess(a, 0) {
+					ex.privAllocs[a] = true
+				}
+			}
+		}
+	}
+}
+
+// withPriv runs f with heap-array names redirected to the private arrays of alloc base (if it is private).
+func (ex *Exec) withPriv(base ssa.Value, f func()) {
+	if a, ok := base.(*ssa.Alloc); ok && ex.privAllocs[a] {
+		old := ex.vc.curPriv
+		ex.vc.curPriv = a.Name()
+		defer func() { ex.vc.curPriv = old }()
+	}
+	f()
+}
+
+func (ex *Exec) load(addr ssa.Value) (res string) {
+	if a, ok := addr.(*ssa.Alloc); ok && ex.privAllocs[a] && ex.vc.curPriv == "" {
+		ex.withPriv(a, func() { res = ex.load(addr) })
+		return res
+	}
 	vc := ex.vc
 	h := ex.cur.heap
 	if a, ok := addr.(*ssa.Alloc); ok {
@@ -662,6 +727,10 @@ func (ex *Exec) load(addr ssa.Value) string {
 }
 
 func (ex *Exec) store(addr ssa.Value, val string) {
+	if a, ok := addr.(*ssa.Alloc); ok && ex.privAllocs[a] && ex.vc.curPriv == "" {
+		ex.withPriv(a, func() { ex.store(addr, val) })
+		return
+	}
 	vc := ex.vc
 	h := ex.cur.heap
 	r := ex.val(addr)
@@ -744,6 +813,10 @@ func (ex *Exec) instr(in ssa.Instruction) {
 	switch i := in.(type) {
 	case *ssa.DebugRef:
 	case *ssa.Alloc:
+		if ex.privAllocs[i] && vc.curPriv == "" {
+			ex.withPriv(i, func() { ex.instr(in) })
+			return
+		}
 		et := i.Type().(*types.Pointer).Elem()
 		r := ex.newRef("new." + i.Name())
 		// Fresh memory is zero: instead of writing zeros (which would put a store
@@ -776,8 +849,13 @@ func (ex *Exec) instr(in ssa.Instruction) {
 		} else {
 			if ex.nonil {
 				ex.panicOblig("nil", i.Pos(), isStmt, fmt.Sprintf("(not (= %s 0))", x.T))
+			} else {
+				// A-NONNIL: execution continues past a field access only if the pointer was non-nil
+				vc.assume(fmt.Sprintf("(=> %s (not (= %s 0)))", g, x.T))
 			}
-			ex.vals[i] = &Val{P: &Place{kind: 0, base: x.T, arr: vc.fieldArr(vc.structName(pt, st), f), typ: f.Type(), rootT: f.Type()}}
+			var arrName string
+			ex.withPriv(i.X, func() { arrName = vc.fieldArr(vc.structName(pt, st), f) })
+			ex.vals[i] = &Val{P: &Place{kind: 0, base: x.T, arr: arrName, typ: f.Type(), rootT: f.Type()}}
 		}
 	case *ssa.Field:
 		x := ex.val(i.X)
@@ -978,6 +1056,41 @@ func (ex *Exec) instr(in ssa.Instruction) {
 			}
 		}
 		ex.store(i.Addr, ex.val(i.Val).T)
+		// preserving writers of a type invariant re-establish it right after each write
+		if fa, ok := i.Addr.(*ssa.FieldAddr); ok && ex.pass == 2 {
+			if T, f, ok := fieldOfLoad(fa); ok {
+				for _, ti := range vc.ctx.cf.TypeInvs {
+					if ti.Stable || ti.Type != T {
+						continue
+					}
+					isField, isPres := false, false
+					for _, tf := range ti.Fields {
+						if tf == f {
+							isField = true
+						}
+					}
+					for _, p := range ti.Preserving {
+						if p == vc.fnName() {
+							isPres = true
+						}
+					}
+					if !isField || !isPres {
+						continue
+					}
+					base := ex.val(fa.X)
+					env := &SpecEnv{vc: vc, vars: map[string]TV{"self": {T: base.T, Ty: fa.X.Type()}}, params: ex.params, heap: ex.cur.heap, old: ex.entry}
+					b, err := env.Bool(ti.Expr)
+					if err != nil {
+						continue
+					}
+					sn := vc.snippetAt(i.Pos(), isStmt)
+					if hasPropStr(ti.Prop, ex.prop) {
+						ex.oblig("typeinv.preserve", ti.Type, sn, i.Pos(), fmt.Sprintf("(=> %s %s)", ex.cur.guard, b), []string{ex.prop})
+					}
+					vc.assume(fmt.Sprintf("(=> %s %s)", ex.cur.guard, b))
+				}
+			}
+		}
 	case *ssa.MapUpdate:
 		m := ex.val(i.Map)
 		mt := i.Map.Type().Underlying().(*types.Map)
@@ -1406,6 +1519,18 @@ func (ex *Exec) run() {
 	}
 	ex.cur = &blockState{heap: h0, guard: "true"}
 	ex.entryGhosts = map[string]TV{}
+	ex.propRe = nil
+	for _, c := range vc.fc.clauses("propagates") {
+		if hasProp(c, ex.prop) {
+			re, err := regexp.Compile("^(" + c.Expr + ")$")
+			if err != nil {
+				vc.ctx.contractError(vc.fc, c, err)
+				continue
+			}
+			ex.propRe = re
+			ex.entryGhosts["$suberr"] = TV{T: "false", Ty: tBool}
+		}
+	}
 	for _, c := range vc.fc.Clauses {
 		if c.Kind == "ghost" && c.When == "entry" {
 			tv, err := env0.Any(c.Expr)
@@ -1428,6 +1553,7 @@ func (ex *Exec) run() {
 	}
 
 	ex.computeROCells()
+	ex.computePrivAllocs()
 	ex.roStored = map[*ssa.Alloc]bool{}
 	ex.computeLoops()
 	order := ex.rpo()
@@ -1536,17 +1662,20 @@ func (ex *Exec) mergeGhosts(b *ssa.BasicBlock, pidx []int, gs []string) map[stri
 	}
 	for name := range names {
 		var vals []TV
-		ok := true
+		var proto *TV
+		for _, pi := range pidx {
+			if v, has := ex.out[b.Preds[pi]].ghosts[name]; has {
+				vv := v
+				proto = &vv
+			}
+		}
 		for _, pi := range pidx {
 			v, has := ex.out[b.Preds[pi]].ghosts[name]
 			if !has {
-				ok = false
-				break
+				// not assigned on this path: an arbitrary value
+				v = TV{T: vc.fresh("ghost.undef."+name, vc.sortOf(proto.Ty)), Ty: proto.Ty}
 			}
 			vals = append(vals, v)
-		}
-		if !ok {
-			continue
 		}
 		same := true
 		for _, v := range vals {
@@ -1797,6 +1926,14 @@ func (ex *Exec) loopHead(b *ssa.BasicBlock, l *loopInfo, pidx []int, gs []string
 			}
 		}
 	}
+	if g, ok := st.ghosts["$suberr"]; ok && ex.propRe != nil {
+		// a loop is not continued after a sub-error (checked at the entry and back edges)
+		if ex.pass == 2 {
+			ex.oblig("err.dropped", fmt.Sprintf("loop%d.entry", l.ordinal), "", token.NoPos, fmt.Sprintf("(=> %s (not %s))", st.guard, g.T), []string{ex.prop})
+		}
+		st.ghosts = cloneGhosts(st.ghosts)
+		st.ghosts["$suberr"] = TV{T: "false", Ty: tBool}
+	}
 	// counting loops:  i = phi(c, i + k) with constants c, k > 0: candidate
 	// invariant  i >= c  (assumed here, checked at the back edges as inv.auto).
 	l.autoPhis = nil
@@ -1879,6 +2016,9 @@ func (ex *Exec) backEdge(p, head *ssa.BasicBlock, l *loopInfo, k int) {
 		if q == p {
 			pi = i
 		}
+	}
+	if g, ok := ex.out[p].ghosts["$suberr"]; ok && ex.propRe != nil {
+		ex.oblig("err.dropped", fmt.Sprintf("loop%d.continue", l.ordinal), "", token.NoPos, fmt.Sprintf("(=> %s (not %s))", eg, g.T), []string{ex.prop})
 	}
 	for _, ai := range l.autoPhis {
 		v := ex.val(ai.phi.Edges[pi])
@@ -1967,17 +2107,19 @@ func (ex *Exec) exit() {
 		}
 		for name := range names {
 			var vals []TV
-			ok := true
+			var proto *TV
+			for _, r := range ex.rets {
+				if v, has := r.ghosts[name]; has {
+					vv := v
+					proto = &vv
+				}
+			}
 			for _, r := range ex.rets {
 				v, has := r.ghosts[name]
 				if !has {
-					ok = false
-					break
+					v = TV{T: vc.fresh("ghost.undef."+name, vc.sortOf(proto.Ty)), Ty: proto.Ty}
 				}
 				vals = append(vals, v)
-			}
-			if !ok {
-				continue
 			}
 			t := vals[len(vals)-1].T
 			for k := len(vals) - 2; k >= 0; k-- {
@@ -2022,6 +2164,11 @@ func (ex *Exec) exit() {
 		return
 	}
 	pos := ex.rets[0].pos
+	if se, ok := eg["$suberr"]; ok && ex.propRe != nil && res.Len() > 0 {
+		if lastv, ok := env.vars[fmt.Sprintf("r%d", res.Len()-1)]; ok && types.TypeString(lastv.Ty, nil) == "error" {
+			ex.oblig("err.dropped", "", "", pos, fmt.Sprintf("(=> %s (=> %s (not (iface_isnil %s))))", g, se.T, lastv.T), []string{ex.prop})
+		}
+	}
 	for _, c := range vc.fc.own("ensures") {
 		if !hasProp(c, ex.prop) {
 			continue
